@@ -1,2 +1,5 @@
 pub mod consts;
 pub mod uplc;
+pub mod aiken_ast;
+pub mod aiken_gen;
+pub mod aiken_shrink;
